@@ -21,7 +21,8 @@ theorem se_is_date_eq (v : SE.Val) : is_date v = v.isDate := by
   cases v <;> rfl
 
 theorem se_end_core (st en : Option SE.Val) (du : Option Int) :
-    Event_end st en du = liftSE (endOf st en du) ∧ Todo_end st en du = liftSE (endOf st en du) := by
+    Event_end (start := st) (end_ := en) (duration := du) = liftSE (endOf st en du) ∧
+      Todo_end (start := st) (end_ := en) (duration := du) = liftSE (endOf st en du) := by
   have h1 : tdsOfUnits 0 1 0 0 0 = 86400 := by decide
   constructor <;>
     (simp only [Event_end, Todo_end, endOf, se_is_date_eq, h1]
@@ -29,10 +30,12 @@ theorem se_end_core (st en : Option SE.Val) (du : Option Int) :
        simp [liftSE, pure, Except.pure, throw, throwThe, MonadExceptOf.throw]
      all_goals (split <;> simp [liftSE, *]))
 
-theorem Event_end_eq (st en : Option SE.Val) (du : Option Int) : Event_end st en du = liftSE (endOf st en du) :=
+theorem Event_end_eq (st en : Option SE.Val) (du : Option Int) :
+    Event_end (start := st) (end_ := en) (duration := du) = liftSE (endOf st en du) :=
   (se_end_core st en du).1
 
-theorem Todo_end_eq (st en : Option SE.Val) (du : Option Int) : Todo_end st en du = liftSE (endOf st en du) :=
+theorem Todo_end_eq (st en : Option SE.Val) (du : Option Int) :
+    Todo_end (start := st) (end_ := en) (duration := du) = liftSE (endOf st en du) :=
   (se_end_core st en du).2
 
 end ICal.Bodies
